@@ -83,6 +83,8 @@ class Ctx:
         fm = z3.simplify(fm) if not isinstance(fm, bool) else z3.BoolVal(fm)
         if z3.is_true(fm):
             res = dict(status="unsat", backend="simplify", secs=0.0)
+        elif z3.is_false(fm):
+            res = dict(status="sat", backend="simplify", secs=0.0, reason="the obligation is concretely false on this (feasible) path")
         else:
             res = alg.prove(self.facts(), fm, timeout_ms)
         self.obs.append((label, fm, res))
@@ -362,13 +364,19 @@ class SScal:
         if isinstance(o, SScal):
             return o
         if isinstance(o, SInt):
-            return SScal(z3.ToReal(o.term), z3.RealVal(0), integral=o)
+            r = SScal(z3.ToReal(o.term), z3.RealVal(0), integral=o)
+            r.dimn = True
+            return r
         if isinstance(o, (bool, np.bool_)):
             raise Unsupported("bool as scalar")
         if isinstance(o, (int, np.integer)):
-            return SScal(z3.RealVal(int(o)), z3.RealVal(0), integral=SInt(int(o)))
+            r = SScal(z3.RealVal(int(o)), z3.RealVal(0), integral=SInt(int(o)))
+            r.dimn = True
+            return r
         if isinstance(o, (float, np.floating)):
-            return SScal(_rv(o), z3.RealVal(0))
+            r = SScal(_rv(o), z3.RealVal(0))
+            r.dimn = True
+            return r
         if isinstance(o, (complex, np.complexfloating)):
             return SScal(_rv(o.real), _rv(o.imag))
         if isinstance(o, np.ndarray) and o.ndim == 0:
@@ -417,6 +425,13 @@ class SScal:
         if isinstance(o, (AMat, BCol, BRow)) or hasattr(o, "_matmat"):
             return NotImplemented
         o = SScal.lift(o)
+        if getattr(self, "dimn", False) and getattr(o, "dimn", False):
+            # scalars derived from dimensions / literals only: interpreted (non-linear) arithmetic, decided without lemmas
+            r = SScal(self.re * o.re, z3.RealVal(0), self.dtype or o.dtype)
+            r.dimn = True
+            if self.integral is not None and o.integral is not None:
+                r.integral = self.integral * o.integral
+            return r
         # products are kept as flat factor lists and folded to the right, so that ((a*b)*c) and a*(b*c) are the same
         # term (multiplication in C is associative); the order of the factors is preserved
         atoms = [f for f in self._atoms() + o._atoms() if not f._is_one()]
@@ -442,6 +457,10 @@ class SScal:
 
     def recip(self):
         CTX.require(z3.Or(self.re != 0, self.im != 0), "division by a non-zero scalar")
+        if getattr(self, "dimn", False):
+            r = SScal(1 / self.re, z3.RealVal(0), self.dtype)
+            r.dimn = True
+            return r
         if self.is_real():
             return SScal(alg.rdiv(z3.RealVal(1), self.re), z3.RealVal(0), self.dtype)
         den = alg.rmul(self.re, self.re) + alg.rmul(self.im, self.im)
@@ -749,6 +768,11 @@ class AMat:
         raise Unsupported("vector @ vector")
 
     def __getitem__(self, key):
+        if self.ndim == 1 and isinstance(key, tuple) and len(key) >= 1 and all(k is None or k == slice(None) for k in key) \
+                and sum(1 for k in key if k == slice(None)) == 1 and (len(key) == 1 or len(key) >= 3):
+            if len(key) == 1:
+                return self
+            return OuterN([(list(key).index(slice(None)), self)], len(key))
         if self.ndim == 1:
             if key == (slice(None), None):
                 return BCol(self)
@@ -759,6 +783,28 @@ class AMat:
         if self.ndim == 2 and (key == (Ellipsis, None)):
             raise Unsupported("3-d arrays")
         raise Unsupported(f"indexing {key!r} on array of shape {self.shape}")
+
+    def _cmp(self, o, opid):
+        if self.ndim != 1:
+            raise Unsupported("comparison of matrices")
+        if isinstance(o, AMat):
+            rhs = o.term
+        else:
+            sc = SScal.lift(o)
+            rhs = alg.vfull(sc.re, sc.im, iterm(self.shape[0]))
+        return AMat(alg.vcmp(opid, self.term, rhs), self.shape, np.bool_, fresh=True)
+
+    def __gt__(self, o):
+        return self._cmp(o, 0)
+
+    def __ge__(self, o):
+        return self._cmp(o, 1)
+
+    def __lt__(self, o):
+        return self._cmp(o, 2)
+
+    def __le__(self, o):
+        return self._cmp(o, 3)
 
     def sum(self, axis=None):
         if self.ndim == 1 and axis in (None, 0, -1):
@@ -794,6 +840,15 @@ class BCol:
     def __init__(self, v):
         self.v = v
 
+    def __add__(self, o):
+        if _is_zero(o):
+            return self
+        if isinstance(o, BRow):
+            return OuterN([(0, self.v), (1, o.v)], 2, "+")
+        raise Unsupported("column broadcast sum")
+
+    __radd__ = __add__
+
     def __mul__(self, o):
         if isinstance(o, BRow):
             return Outer(self.v, o.v)
@@ -813,6 +868,15 @@ class BRow:
     def __init__(self, v):
         self.v = v
 
+    def __add__(self, o):
+        if _is_zero(o):
+            return self
+        if isinstance(o, BCol):
+            return OuterN([(0, o.v), (1, self.v)], 2, "+")
+        raise Unsupported("row broadcast sum")
+
+    __radd__ = __add__
+
     def __mul__(self, o):
         if isinstance(o, BCol):
             return Outer(o.v, self.v)
@@ -823,6 +887,48 @@ class BRow:
         raise Unsupported("row broadcast with " + type(o).__name__)
 
     __rmul__ = __mul__
+
+
+class OuterN:
+    """d_i[None,..,:,..,None] factors of an N-d outer product / outer sum; only .reshape(-1) is supported"""
+    __array_ufunc__ = None
+
+    def __init__(self, facs, L, op=None):
+        self.facs, self.L, self.op = facs, L, op
+
+    def _combine(self, o, op):
+        if _is_zero(o) and op == "+":
+            return self
+        if not isinstance(o, OuterN) or o.L != self.L or (self.op not in (None, op)) or (o.op not in (None, op)):
+            raise Unsupported("mixed N-d broadcast")
+        pos = [p for p, _ in self.facs] + [p for p, _ in o.facs]
+        if len(set(pos)) != len(pos):
+            raise Unsupported("repeated axis in N-d broadcast")
+        return OuterN(self.facs + o.facs, self.L, op)
+
+    def __mul__(self, o):
+        return self._combine(o, "*")
+
+    __rmul__ = __mul__
+
+    def __add__(self, o):
+        return self._combine(o, "+")
+
+    __radd__ = __add__
+
+    def reshape(self, *shape):
+        if shape != (-1,) or len(self.facs) != self.L:
+            raise Unsupported("reshape of a partial N-d broadcast")
+        facs = [v for _, v in sorted(self.facs, key=lambda t: t[0])]
+        f = alg.vkron if self.op == "*" else alg.vksum
+        t = facs[-1].term
+        n = SInt.lift(facs[-1].shape[0])
+        dt = facs[-1].dtype
+        for v in reversed(facs[:-1]):
+            t = f(v.term, t)
+            n = SInt.lift(v.shape[0]) * n
+            dt = np.promote_types(dt, v.dtype)
+        return AMat(t, (n,), dt, fresh=True)
 
 
 class Outer:
